@@ -72,24 +72,32 @@ type CharIndices<'a> =
     core::iter::Chain<bstr::CharIndices<'a>, core::iter::Once<(usize, usize, char)>>;
 
 /// Mapping between byte and character indices.
-pub struct ByteChar<'a>(core::iter::Peekable<core::iter::Enumerate<CharIndices<'a>>>);
+pub struct ByteChar<'a> {
+    s: &'a [u8],
+    iter: core::iter::Peekable<core::iter::Enumerate<CharIndices<'a>>>,
+}
 
 impl<'a> ByteChar<'a> {
     pub fn new(s: &'a [u8]) -> Self {
         let last = core::iter::once((s.len(), 0, '\0'));
-        Self(s.char_indices().chain(last).enumerate().peekable())
+        let iter = s.char_indices().chain(last).enumerate().peekable();
+        Self { s, iter }
     }
 
     /// Convert byte offset to UTF-8 character offset.
     ///
-    /// This needs to be called with monotonically increasing values of `byte_offset`.
+    /// This is fastest when called with monotonically increasing values of `byte_offset`;
+    /// for a smaller value (capture groups are not ordered by their start), it starts over.
     fn char_of_byte(&mut self, byte_offset: usize) -> Option<usize> {
+        if self.iter.peek().map_or(true, |(_, (byte_i, ..))| byte_offset < *byte_i) {
+            *self = Self::new(self.s);
+        }
         loop {
-            let (char_i, (byte_i, _, _char)) = self.0.peek()?;
+            let (char_i, (byte_i, _, _char)) = self.iter.peek()?;
             if byte_offset == *byte_i {
                 return Some(*char_i);
             } else {
-                self.0.next();
+                self.iter.next();
             }
         }
     }
